@@ -678,6 +678,12 @@ def vq_sqrt(x):
         if ra * ra == a and rb * rb == b:
             return Q(Fraction(ra, rb))
     else:
+        if any(i in REG.alg for i in zp.variables(x.n)):
+            # radicand built from other algebraic atoms: normal form modulo their defining relations first
+            # (|p + (q/s**2) d - ...|**2 with s**2 = q collapses to a constant without a solver query)
+            x = reduce_alg(x)
+            if x.k is not None:
+                return vq_sqrt(x)
         if x < 0:
             raise ValueError('math domain error')
     key = repr(x)
